@@ -311,6 +311,9 @@ pub struct XlsxBook {
     /// blocks of events (each a balanced run of elements / comments the readers must skip) inserted at random
     /// positions between the children of `<workbook>`; part of `Built::workbook_events` (C16)
     pub workbook_inert: Vec<Vec<Ev>>,
+    /// relationship id of every sheet (an NCName without XML-special characters; must differ from `rId<n+1>`, `rId<n+2>`
+    /// used for styles / shared strings); `None` = `rId1`, `rId2`, … (C16)
+    pub rel_ids: Option<Vec<String>>,
 }
 
 impl Default for XlsxBook {
@@ -334,6 +337,7 @@ impl XlsxBook {
             cdata_defined_names: false,
             workbook_tail_events: vec![],
             workbook_inert: vec![],
+            rel_ids: None,
         }
     }
 }
@@ -1174,7 +1178,11 @@ impl XlsxBook {
             if l.rel_decl == RelDecl::Sheet {
                 attrs.push(rel_ns.clone());
             }
-            attrs.push((format!("{}:id", l.rel_prefix), format!("rId{}", i + 1)));
+            let rid = match &self.rel_ids {
+                Some(v) => v[i].clone(),
+                None => format!("rId{}", i + 1),
+            };
+            attrs.push((format!("{}:id", l.rel_prefix), rid.clone()));
             wb.push(Ev::Start(l.q("sheet"), attrs));
             wb.push(end(&l.q("sheet")));
             let rel_target = &sheet_paths[i]["xl/".len()..];
@@ -1189,8 +1197,8 @@ impl XlsxBook {
                 "macrosheets" => "xlMacrosheet",
                 _ => "worksheet",
             };
-            rels.push_str(&format!("<Relationship Id=\"rId{}\" Type=\"{}/{}\" Target=\"{}\"/>", i + 1, NS_REL, typ, esc_attr(&target)));
-            sheet_rels.push((format!("rId{}", i + 1), target));
+            rels.push_str(&format!("<Relationship Id=\"{}\" Type=\"{}/{}\" Target=\"{}\"/>", rid, NS_REL, typ, esc_attr(&target)));
+            sheet_rels.push((rid, target));
         }
         wb.push(end(&l.q("sheets")));
         if !self.defined_names.is_empty() {
